@@ -167,7 +167,7 @@ def check(cx):
     # user MODE
     fu = cx.fn('process_mode_user')
     TGT = P('target')
-    wu = cx.walk(fu, args=[SELF, CONN, STATE, TGT, P('modes')], inline=inl, key='c19')
+    wu = cx.walk(fu, args=cx.callsite_args(cx.fn('process_mode'), [SELF, CONN, TGT, P('modes')], 'process_mode_user'), inline=inl, key='c19')
     transitions(cx, r1, 'process_mode_user', wu, field(user(TGT), 'modes'), TGT, 'update', prog, fu)
     # nobody else writes these
     census = cx_census(cx)
